@@ -32,7 +32,8 @@ package timepb
 //@   ensures[nil] t == nil ==> result == nil
 //@   ensures[fresh] t != nil ==> result != nil && result != t && fresh(result)
 //@   ensures[normalised] t != nil ==> 0 <= result.Nanos && result.Nanos < 1000000000
-//@   ensures[exact] t != nil ==> result.Seconds*1000000000 + result.Nanos == t.Seconds*1000000000 + t.Nanos + d.Seconds*1000000000 + d.Nanos
+//@   ensures[exact] t != nil ==> result.Seconds*1000000000 + result.Nanos == old(t.Seconds)*1000000000 + old(t.Nanos) + old(d.Seconds)*1000000000 + old(d.Nanos)
+//@   ensures[arguments-untouched] t != nil ==> t.Seconds == old(t.Seconds) && t.Nanos == old(t.Nanos) && d.Seconds == old(d.Seconds) && d.Nanos == old(d.Nanos)
 
 //@ func Add#overflow
 //@   property C17
@@ -74,7 +75,8 @@ package timepb
 //@   ensures[nil] t == nil ==> result == nil
 //@   ensures[fresh] t != nil ==> result != nil && result != t && fresh(result)
 //@   ensures[normalised] t != nil ==> 0 <= result.Nanos && result.Nanos < 1000000000
-//@   ensures[exact] t != nil ==> result.Seconds*1000000000 + result.Nanos == t.Seconds*1000000000 + t.Nanos + d
+//@   ensures[exact] t != nil ==> result.Seconds*1000000000 + result.Nanos == old(t.Seconds)*1000000000 + old(t.Nanos) + d
+//@   ensures[argument-untouched] t != nil ==> t.Seconds == old(t.Seconds) && t.Nanos == old(t.Nanos)
 //@   note with Add's [exact] and [normalised] and the lemma below, AddStd(t, d) and Add(t, durationpb.New(d)) are the same timestamp
 
 //@ lemma normal-form-is-unique (s1:int64, n1:int64, s2:int64, n2:int64) mode math property C17: 0 <= n1 && n1 < 1000000000 && 0 <= n2 && n2 < 1000000000 && s1*1000000000 + n1 == s2*1000000000 + n2 ==> s1 == s2 && n1 == n2
